@@ -231,6 +231,12 @@ Definition wf_txn (t : s_txn) : bool :=
   wf_payee (st_clear t) (st_code t) (st_payee t) &&
   forallb wf_metadata (st_metadata t) && forallb wf_posting (st_posts t).
 
+(* The one place where the parser's image is not described by a local condition: with no code,
+   a payee may start with ( when no ) follows anywhere in the rest of the text (the code parser
+   runs to the end of the input and gives up).  Such a transaction is outside wf_txn. *)
+Definition open_paren_payee (t : s_txn) : bool :=
+  match st_code t with None => starts (N.eqb 40) (st_payee t) | Some _ => false end.
+
 Definition same_txn (t t' : s_txn) : Prop :=
   st_date t' = st_date t /\ st_edate t' = st_edate t /\ st_clear t' = st_clear t /\
   st_code t' = st_code t /\ st_payee t' = st_payee t /\
@@ -297,6 +303,9 @@ Definition wf_entry (e : s_entry) : bool :=
   | SCommodity name details =>
       wf_line_text name && forallb wf_commodity_detail details && no_adjacent cd_merges details
   end.
+
+Definition entry_open_paren (e : s_entry) : bool :=
+  match e with STxn t => open_paren_payee t | _ => false end.
 
 Definition same_entry (e e' : s_entry) : Prop :=
   match e, e' with
